@@ -75,7 +75,7 @@ Hypothesis Hguard : rcc = true -> forall f n, In (f, n) (excludes_of cs) -> ~ In
 Let fds := map (mkff p) design.
 Let cr := map (pos design) crossing.
 Let excl := excluded_levels ics.
-Let S := psize p design crossing ics.
+Let Sz := psize p design crossing ics.
 
 Lemma HnamesC : forall f, In f crossing -> NoDup (map fst (plevels p f)).
 Proof. intros f Hf. apply Hnames. eapply nth_error_In. apply Hpos. exact Hf. Qed.
@@ -99,9 +99,9 @@ Qed.
 (** (1) the documented crossing size is the code's *)
 Lemma doc_size : forall allc feas,
   all_combos p crossing = Ok allc -> feasible_combos p design crossing (excludes_of cs) = Ok feas ->
-  sum_values (if rcc then allc else feas) = S.
+  sum_values (if rcc then allc else feas) = Sz.
 Proof.
-  intros allc feas Ha Hf. unfold S, psize. fold excl. destruct (Bool.bool_dec rcc true) as [Hr|Hr].
+  intros allc feas Ha Hf. unfold Sz, psize. fold excl. destruct (Bool.bool_dec rcc true) as [Hr|Hr].
   - rewrite Hr. destruct (all_combos_keys p design crossing Hsimple Hpos allc Ha) as [Hnd Hk].
     rewrite (dict_sum p design crossing Hsimple Hpos HnamesC allc (fun _ => true) Hnd).
     + apply (f_equal (@list_sum)). apply (f_equal (map (W p crossing))). apply filter_ext_in. intros ls Hls.
@@ -132,12 +132,12 @@ Proof.
   rewrite app_nil_r. rewrite (min_fold_cs p design (map (mkff p) design) cs ics Hics 0%Z) by lia. fold M. lia.
 Qed.
 
-Lemma pT_eq : pT p design crossing ics rcc ef = Z.of_nat (Nat.max (Nat.max S 1) M).
-Proof. unfold pT. rewrite praw_eq. fold S. lia. Qed.
+Lemma pT_eq : pT p design crossing ics rcc ef = Z.of_nat (Nat.max (Nat.max Sz 1) M).
+Proof. unfold pT. rewrite praw_eq. fold Sz. lia. Qed.
 
-Lemma pw_eq : 0 < S -> pw p design crossing ics rcc ef = Z.of_nat (ceil_div (Nat.max (Nat.max S 1) M) S).
+Lemma pw_eq : 0 < Sz -> pw p design crossing ics rcc ef = Z.of_nat (ceil_div (Nat.max (Nat.max Sz 1) M) Sz).
 Proof.
-  intro HS. unfold pw. rewrite pT_eq. fold S. set (T := Nat.max (Nat.max S 1) M). unfold ceil_div.
+  intro HS. unfold pw. rewrite pT_eq. fold Sz. set (T := Nat.max (Nat.max Sz 1) M). unfold ceil_div.
   rewrite Nat2Z.inj_div. rewrite Z.div_1_r. f_equal. lia.
 Qed.
 
@@ -234,5 +234,126 @@ Proof.
     pose proof (Hv _ _ Hin) as E. rewrite (combo_weight_names p design crossing Hsimple Hpos HnamesC ls Hls) in E.
     inversion E; subst v. inversion Hf; subst y. exact Hy.
 Qed.
+
+(** (5) the constraints *)
+Section Constraints.
+Variable T : nat.
+Hypothesis HT : 0 < T.
+Variable fb : flat.
+Hypothesis Hd : fl_design fb = fds.
+Hypothesis Hc : fl_crossings fb = [cr].
+Hypothesis Hs : fl_sustains fb = [1].
+Hypothesis Htr : fl_trials fb = T.
+Hypothesis Hal : fl_alignment fb = EqualPreamble.
+Variable g : geometry.
+Hypothesis Hgt : g_trials g = T.
+Hypothesis Hgp : g_preamble g = 0.
+Hypothesis Hgs : forall kv, In kv (g_sustain g) -> snd kv = 1.
+Variable x : dcross.
+
+Lemma windows_g : windows_of fb (Some g) = [(0, T)].
+Proof.
+  unfold windows_of, map_block_trial_ranges. rewrite Hgt, Hgp, Hal.
+  replace (T <=? 0) with false by (symmetry; apply Nat.leb_gt; exact HT). cbn [andb].
+  unfold trials. rewrite Htr, Nat.sub_0_r. destruct T as [|T']; [lia|]. cbn [ranges_loop].
+  replace (0 <? Datatypes.S T') with true by (symmetry; apply Nat.ltb_lt; lia). unfold trials. rewrite Htr, Nat.min_id.
+  rewrite Nat.add_0_l, Nat.ltb_irrefl. destruct T'; reflexivity.
+Qed.
+
+Lemma geometry_sustain_g : forall f, geometry_sustain fb (Some g) f = 1.
+Proof.
+  intro f. unfold geometry_sustain. destruct (find _ (g_sustain g)) as [kv|] eqn:E; [|reflexivity].
+  apply find_some in E. apply Hgs. apply E.
+Qed.
+
+Definition code_of (ic : iconstraint) : list dconstraint :=
+  flat_map (code_constraint fb) (map (init_wb g) (desugar_constraint fds ic)).
+
+Definition doc_of (c : pcons) : res (list dconstraint) :=
+  cs0 <- expand_constraint p c ;;
+  ks <- mapM (fun c0 => sem_constraint p (the_bd design cs rcc x T) design 0 T c0 ScNone) cs0 ;; Ok (List.concat ks).
+
+Lemma strided_simple : forall f, simple_id p f -> strided (fd_of p f) = false.
+Proof. intros f H. unfold strided. rewrite (simple_plevels p f H). reflexivity. Qed.
+
+Lemma doc_level : forall kd k f n pf l, fpos design f = Some pf -> lpos p f n = Some l ->
+  sem_constraint p (the_bd design cs rcc x T) design 0 T (PKRow kd k (TLevel f n)) ScNone
+  = Ok [{| k_kind := krow_kind kd k 1; k_factor := pf; k_level := l; k_windows := [(0, T)] |}].
+Proof.
+  intros kd k f n pf l Hf Hl. destruct (fpos_pos design f pf Hf) as [-> [_ Hfd]].
+  destruct (lpos_level p design Hsimple f n l Hfd Hl) as [Eli _].
+  unfold sem_constraint. cbn [scope_windows bind]. rewrite (pos_of_design design f HndD Hfd). cbn [bind]. rewrite Eli. reflexivity.
+Qed.
+
+Lemma cons_agree_one : forall c ic, plain_constraint p design c = Some ic ->
+  (is_min_trials c = true -> code_of ic = []) /\
+  (is_min_trials c = false -> doc_of c = Ok (code_of ic)).
+Proof.
+  intros c ic H. unfold plain_constraint in H.
+  destruct c as [kd k [f n|f]|f n|ix f n|f|fs|t| |kind]; try discriminate.
+  - (* run-length / count constraint on a level *)
+    destruct (fpos design f) as [pf|] eqn:Ef; [|discriminate]. destruct (lpos p f n) as [l|] eqn:El; [|discriminate]. inversion H; subst ic.
+    split; [discriminate|]. intros _. unfold doc_of, expand_constraint.
+    destruct (fpos_pos design f pf Ef) as [_ [_ Hfd]]. pose proof (design_simple p design Hsimple f Hfd) as Hsf.
+    assert (Echk : (if is_run_kind kd then fd <- fm p (target_factor (TLevel f n)) ;; (if strided fd then Unsup UStrided else Ok tt) else Ok tt) = Ok tt).
+    { destruct (is_run_kind kd); [|reflexivity]. cbn [target_factor]. destruct (simple_fm p f Hsf) as [-> _]. cbn [bind].
+      rewrite (strided_simple f Hsf). reflexivity. }
+    rewrite Echk. cbn [bind mapM]. rewrite (doc_level kd k f n pf l Ef El). cbn [bind List.concat app].
+    unfold code_of. cbn [desugar_constraint map flat_map app].
+    destruct kd; cbn [krow_of mk_krow init_wb code_constraint krow_kind app]; unfold mk_c; rewrite windows_g, ?Nat.mul_1_r; reflexivity.
+  - (* ... on a whole factor *)
+    destruct (fpos design f) as [pf|] eqn:Ef; [|discriminate]. inversion H; subst ic.
+    split; [discriminate|]. intros _. unfold doc_of, expand_constraint.
+    destruct (fpos_pos design f pf Ef) as [Epf [Hnth Hfd]]. pose proof (design_simple p design Hsimple f Hfd) as Hsf.
+    assert (Echk : (if is_run_kind kd then fd <- fm p (target_factor (TFactor f)) ;; (if strided fd then Unsup UStrided else Ok tt) else Ok tt) = Ok tt).
+    { destruct (is_run_kind kd); [|reflexivity]. cbn [target_factor]. destruct (simple_fm p f Hsf) as [-> _]. cbn [bind].
+      rewrite (strided_simple f Hsf). reflexivity. }
+    rewrite Echk. cbn [bind]. destruct (simple_fm p f Hsf) as [-> _]. cbn [bind]. rewrite (level_names_fd p f Hsf). cbn [bind].
+    rewrite (map_nth_seq (map fst (plevels p f)) EmptyString). rewrite map_length. fold (nlv p f). rewrite map_map.
+    assert (Enl : nlevels_of fds pf = nlv p f).
+    { unfold nlevels_of, fds. rewrite (nth_error_mkff p design pf f Hnth). unfold mkff, nlv. cbn. apply map_length. }
+    unfold code_of. cbn [desugar_constraint option_map]. rewrite Enl. rewrite !map_map. rewrite mapM_map.
+    rewrite (mapM_all_ok _ (fun l => [{| k_kind := krow_kind kd k 1; k_factor := pf; k_level := l; k_windows := [(0, T)] |}])).
+    2:{ intros l Hl. apply in_seq in Hl. apply doc_level; [exact Ef|]. unfold lpos.
+        change (nth l (map fst (plevels p f)) EmptyString) with (nm p f l).
+        rewrite (level_index_nm p design Hsimple Hnames f l Hfd); [reflexivity|lia]. }
+    cbn [bind]. f_equal. generalize (seq 0 (nlv p f)). intro ls. induction ls as [|l ls IH]; [reflexivity|].
+    cbn [map List.concat flat_map app]. rewrite IH.
+    destruct kd; cbn [krow_of mk_krow init_wb code_constraint krow_kind app]; unfold mk_c; rewrite windows_g, ?Nat.mul_1_r; reflexivity.
+  - (* Exclude *)
+    destruct (fpos design f) as [pf|] eqn:Ef; [|discriminate]. destruct (lpos p f n) as [l|] eqn:El; [|discriminate]. inversion H; subst ic.
+    split; [discriminate|]. intros _. unfold doc_of. cbn [expand_constraint bind mapM].
+    destruct (fpos_pos design f pf Ef) as [Epf [_ Hfd]]. destruct (lpos_level p design Hsimple f n l Hfd El) as [Eli _].
+    unfold sem_constraint. cbn [scope_windows bind]. rewrite (pos_of_design design f HndD Hfd). cbn [bind]. rewrite Eli. cbn [bind List.concat app].
+    rewrite <- Epf. reflexivity.
+  - (* Pin *)
+    destruct (fpos design f) as [pf|] eqn:Ef; [|discriminate]. destruct (lpos p f n) as [l|] eqn:El; [|discriminate]. inversion H; subst ic.
+    split; [discriminate|]. intros _. unfold doc_of. cbn [expand_constraint bind mapM].
+    destruct (fpos_pos design f pf Ef) as [Epf [_ Hfd]]. destruct (lpos_level p design Hsimple f n l Hfd El) as [Eli _].
+    unfold sem_constraint. cbn [scope_windows bind]. rewrite (pos_of_design design f HndD Hfd). cbn [bind]. rewrite Eli. cbn [bind List.concat app].
+    unfold code_of. cbn [desugar_constraint map flat_map init_wb code_constraint app]. unfold mk_c. rewrite windows_g, geometry_sustain_g, <- Epf.
+    reflexivity.
+  - (* MinimumTrials *)
+    inversion H; subst ic. split; [reflexivity|discriminate].
+Qed.
+
+Lemma cons_agree : forall cs' ics' ks,
+  Forall2 (fun c ic => plain_constraint p design c = Some ic) cs' ics' ->
+  mapM (fun csc : pcons * scope =>
+          cs0 <- expand_constraint p (fst csc) ;;
+          ks <- mapM (fun c => sem_constraint p (the_bd design cs rcc x T) design 0 T c (snd csc)) cs0 ;; Ok (List.concat ks))
+       (own_constraints cs') = Ok ks ->
+  List.concat ks = flat_map code_of ics'.
+Proof.
+  intros cs' ics' ks H. revert ks. induction H as [|c ic cs' ics' Hcic _ IH]; intros ks Hm.
+  - cbn in Hm. inversion Hm. reflexivity.
+  - destruct (cons_agree_one c ic Hcic) as [H1 H2]. unfold own_constraints in *. cbn [filter] in Hm.
+    destruct (is_min_trials c) eqn:Em; cbn [negb map] in Hm.
+    + cbn [flat_map]. rewrite (H1 eq_refl). cbn [app]. apply IH. exact Hm.
+    + cbn [mapM fst snd] in Hm. fold (doc_of c) in Hm. rewrite (H2 eq_refl) in Hm. cbn [bind] in Hm.
+      inv_bind Hm as ks' Hks Hm. inversion Hm; subst ks. cbn [List.concat flat_map]. f_equal. apply IH. exact Hks.
+Qed.
+
+End Constraints.
 
 End Main.
